@@ -30,7 +30,16 @@ def run(tier, seed):
 
 
 def more(tier, seed, w, v, lay, tp, mc):
-    return []
+    """the single-unit protocols: Exchange.tla behaviours (retry at every receive position, handshake + data, Java's three
+    writes, Mindustry's socket per attempt, Savage 2 without retry)"""
+    quick = tier != "thorough"
+    mc.append(tlc_mc("MC_Exchange.tla", "MC_Exchange.cfg", workers=4, name=PID.lower() + "_mcx"))
+    b = f"{w}/beh_exchange.ndjson"
+    mc.append(behaviours("MC_Exchange.tla", cfg_for(tier, "Gen_Exchange.cfg"), b, PID.lower() + "_genx"))
+    r = vh(["exchange-behaviours", "--layouts", lay, "--templates", tp, "--in", b, "--reps", 4 if quick else 60, "--seed", seed,
+            "--only", PID], name=PID.lower() + "x")
+    v.add_report(r, "single-unit protocol behaviours")
+    return [r] + unreal2_part(tier, seed, w, v, lay, tp, mc)
 
 
 LEVEL = "fault_enumeration"
@@ -39,3 +48,13 @@ ASSUMPTIONS = ["scripted transport hook (validated against real sockets by C12)"
 
 def replay(path):
     return generic_replay(path)
+
+
+def unreal2_part(tier, seed, w, v, lay, tp, mc):
+    quick = tier != "thorough"
+    mc.append(tlc_mc("MC_Unreal2.tla", "MC_Unreal2.cfg", workers=4, name=PID.lower() + "_mcu"))
+    b = f"{w}/beh_unreal2.ndjson"
+    mc.append(behaviours("MC_Unreal2.tla", cfg_for(tier, "Gen_Unreal2.cfg"), b, PID.lower() + "_genu"))
+    r = vh(["unreal2-behaviours", "--layouts", lay, "--in", b, "--reps", 4 if quick else 40, "--seed", seed, "--only", PID], name=PID.lower() + "u")
+    v.add_report(r, "unreal2 behaviours")
+    return [r]
